@@ -31,6 +31,8 @@ structure NLF (s : St) : Prop where
 structure DZF (s : St) : Prop where
   dza : s.dz = false
   dzb : s.dz2 = false
+  cla : s.closed = false
+  clb : s.closed2 = false
 
 /-! ### swap -/
 
@@ -65,12 +67,13 @@ theorem full_swap {s : St} (h : Full s) : Full s.swap :=
    chain_swap _ h.chain, h.bndB, h.bndA, h.stB, h.stA, h.ubB, h.ubA⟩
 
 theorem nlf_swap {s : St} (h : NLF s) : NLF s.swap := ⟨h.b, h.a⟩
-theorem dzf_swap {s : St} (h : DZF s) : DZF s.swap := ⟨h.dzb, h.dza⟩
+theorem dzf_swap {s : St} (h : DZF s) : DZF s.swap := ⟨h.dzb, h.dza, h.clb, h.cla⟩
 
 def Ev.putFault : Ev → Bool
   | .step _ .put => true
   | .online _ .put => true
   | .steponl _ .put => true
+  | .fclose _ => true
   | _ => false
 
 /-! ### events of one follower (A) -/
@@ -89,7 +92,7 @@ structure PeerPost (s s' : St) (o : Out) (e : Ev) : Prop where
   bnd : s'.chan = .ready → s'.stream ≠ .none
   stp : s'.stopped = true → s'.chan = .init
   ub : s'.born = false → s'.stopped = true ∧ s'.cons = -1 ∧ s'.gack = -1
-  label : o ≠ .ignored ∧ (s.dz = false → e.putFault = false → o ≠ .mismatch)
+  label : o ≠ .ignored ∧ (s.dz = false → s.closed = false → e.putFault = false → o ≠ .mismatch)
   ackok : s.stopped = false → s'.gack ≠ s.gack → s'.gack ≤ s'.F.app
   joinok : s.stopped = true → s'.gack = s.gack ∨ s'.gack ≤ s'.L.ack
   gmono : s.gack ≤ s'.gack
@@ -97,23 +100,27 @@ structure PeerPost (s s' : St) (o : Out) (e : Ev) : Prop where
   cover : s.stopped = false → ∀ i, s.gack < i → i ≤ s'.gack → i ≤ s'.F.app
   nl : NLA s → NLA s'
   frame : Frame s s'
-  dzkeep : s.dz = false → e.putFault = false → s'.dz = false
+  dzkeep : s.dz = false → s.closed = false → e.putFault = false → s'.dz = false
+  clkeep : s.closed = false → e.putFault = false → s'.closed = false
 
 theorem peerpost_of_evpost {s s0 s' : St} {o : Out} {e : Ev} {f : Fault} (h : EvPost s0 s' o f) (hst : s0.stopped = false)
     (e1 : s0.gack = s.gack) (e2 : s0.F = s.F) (e3 : s0.dz = s.dz) (hn : NLA s → NLA s0) (hf : Plain s s0)
-    (e4 : s0.stopped = s.stopped) (hb : s0.born = false → False) (hp : e.putFault = false → f ≠ .put) :
+    (e4 : s0.stopped = s.stopped) (hb : s0.born = false → False) (hp : e.putFault = false → f ≠ .put)
+    (e5 : s0.closed = s.closed) :
     PeerPost s s' o e := by
   refine ⟨h.inv, h.bnd, ?_, ?_, ⟨h.label.1, ?_⟩, fun _ => by rw [← e1]; exact h.ackok, ?_, by rw [← e1]; exact h.gmono, ?_,
-    fun _ => by rw [← e1]; exact h.cover, fun n => h.nl (hn n), ?_, fun d p => h.dzkeep (by rw [e3]; exact d) (hp p)⟩
+    fun _ => by rw [← e1]; exact h.cover, fun n => h.nl (hn n), ?_,
+    fun d c p => h.dzkeep (by rw [e3]; exact d) (by rw [e5]; exact c) (hp p), fun c _ => h.cl (by rw [e5]; exact c)⟩
   · intro x
     rw [h.own.1, hst] at x; cases x
   · intro x
     rw [h.own.2] at x; exact (hb x).elim
-  · intro d p
+  · intro d c p
     rw [← e3] at d
+    rw [← e5] at c
     by_cases hr : s0.chan = .ready
-    · exact h.label.2.1 d hr (hp p)
-    · exact h.label.2.2 hr (hp p)
+    · exact h.label.2.1 d c hr (hp p)
+    · exact h.label.2.2 hr c (hp p)
   · intro x
     rw [← e4, hst] at x; cases x
   · rw [← e1, ← e2]
@@ -129,18 +136,18 @@ theorem peerpost_of_evpost {s s0 s' : St} {o : Out} {e : Ev} {f : Fault} (h : Ev
       · rw [← e2, ← hf.1.stopped2, ← hf.2.2.2.1]; exact f.2.2.2.2.1
       · rw [← hf.1.chan2, ← hf.2.2.2.2]; exact f.2.2.2.2.2
 
-local macro "plain_rfl" : term => `(⟨⟨rfl, rfl, rfl, rfl, rfl, rfl, rfl, rfl, rfl, rfl⟩, rfl, rfl, rfl, rfl⟩)
+local macro "plain_rfl" : term => `(⟨⟨rfl, rfl, rfl, rfl, rfl, rfl, rfl, rfl, rfl, rfl, rfl⟩, rfl, rfl, rfl, rfl⟩)
 
 theorem peerpost_same {s s' : St} {o : Out} {e : Ev} (hi : InvA s') (hb : s'.chan = .ready → s'.stream ≠ .none)
     (hs : s'.stopped = true → s'.chan = .init)
     (hu : s'.born = false → s'.stopped = true ∧ s'.cons = -1 ∧ s'.gack = -1)
     (ho : o = .idle ∨ o = .noreplicator ∨ o = .suspended ∨ o = .gone ∨ o = .parked)
-    (e1 : s'.gack = s.gack) (e2 : s'.F = s.F ∨ s'.F = Log.empty) (e3 : s'.dz = s.dz) (e4 : s'.L = s.L) (e5 : s'.cons = s.cons)
-    (hf : Plain s s') : PeerPost s s' o e := by
+    (e1 : s'.gack = s.gack) (e2 : s'.F = s.F ∨ s'.F = Log.empty) (e3 : s'.dz = s.dz ∨ e.putFault = true) (e4 : s'.L = s.L) (e5 : s'.cons = s.cons)
+    (hf : Plain s s') (e6 : s'.closed = s.closed ∨ e.putFault = true := by exact Or.inl rfl) : PeerPost s s' o e := by
   refine ⟨hi, hb, hs, hu, ⟨?_, ?_⟩, fun _ => by rw [e1]; simp, fun _ => Or.inl e1, by rw [e1]; exact Int.le_refl _, ?_,
-    fun _ => by rw [e1]; intros; omega, ?_, Or.inl hf, fun d _ => by rw [e3]; exact d⟩
+    fun _ => by rw [e1]; intros; omega, ?_, Or.inl hf, ?_, ?_⟩
   · rcases ho with x | x | x | x | x <;> rw [x] <;> simp
-  · intro _ _; rcases ho with x | x | x | x | x <;> rw [x] <;> simp
+  · intro _ _ _; rcases ho with x | x | x | x | x <;> rw [x] <;> simp
   · rcases e2 with x | x
     · rw [x]; exact Or.inl rfl
     · rw [x]; exact Or.inr (Or.inr rfl)
@@ -152,6 +159,14 @@ theorem peerpost_same {s s' : St} {o : Out} {e : Ev} (hi : InvA s') (hb : s'.cha
     · rw [x]
       exact nlc_flose n (by have := hi.lint.ack_ge; have := hi.lint.ack_app; rw [e4] at *; omega)
         (by have := hi.lint.gack_ge; rw [e1] at this; exact this)
+  · intro d _ p
+    rcases e3 with x | x
+    · rw [x]; exact d
+    · rw [p] at x; cases x
+  · intro c p
+    rcases e6 with x | x
+    · rw [x]; exact c
+    · rw [p] at x; cases x
 
 theorem peerEv_spec (cfg : Cfg) (s : St) (e : Ev) (h : InvA s) (hb : s.chan = .ready → s.stream ≠ .none)
     (hs : s.stopped = true → s.chan = .init) (hu : s.born = false → s.stopped = true ∧ s.cons = -1 ∧ s.gack = -1) :
@@ -162,28 +177,28 @@ theorem peerEv_spec (cfg : Cfg) (s : St) (e : Ev) (h : InvA s) (hb : s.chan = .r
     unfold onlineEv
     dsimp only
     split
-    · exact peerpost_same (invA_mk h rfl rfl rfl rfl rfl rfl rfl rfl) hb hs hu (Or.inr (Or.inl rfl)) rfl (Or.inl rfl) rfl rfl rfl plain_rfl
+    · exact peerpost_same (invA_mk h rfl rfl rfl rfl rfl rfl rfl rfl) hb hs hu (Or.inr (Or.inl rfl)) rfl (Or.inl rfl) (Or.inl rfl) rfl rfl plain_rfl
     · rename_i hst
       have hst' : s.stopped = false := by simpa using hst
       split
       · exact peerpost_of_evpost (replicaStep_spec cfg _ f (invA_mk h rfl rfl rfl rfl rfl rfl rfl rfl) hst')
-          hst' rfl rfl rfl id plain_rfl rfl (hnb hst') hpf
-      · exact peerpost_same (invA_mk h rfl rfl rfl rfl rfl rfl rfl rfl) hb hs hu (Or.inl rfl) rfl (Or.inl rfl) rfl rfl rfl plain_rfl
+          hst' rfl rfl rfl id plain_rfl rfl (hnb hst') hpf rfl
+      · exact peerpost_same (invA_mk h rfl rfl rfl rfl rfl rfl rfl rfl) hb hs hu (Or.inl rfl) rfl (Or.inl rfl) (Or.inl rfl) rfl rfl plain_rfl
   cases e with
   | step w f =>
     simp only [peerEv]
     split
-    · exact peerpost_same h hb hs hu (Or.inr (Or.inl rfl)) rfl (Or.inl rfl) rfl rfl rfl (plain_refl s)
+    · exact peerpost_same h hb hs hu (Or.inr (Or.inl rfl)) rfl (Or.inl rfl) (Or.inl rfl) rfl rfl (plain_refl s)
     · rename_i hst
       have hst' : s.stopped = false := by simpa using hst
       split
-      · exact peerpost_same h hb hs hu (Or.inr (Or.inr (Or.inl rfl))) rfl (Or.inl rfl) rfl rfl rfl (plain_refl s)
-      · refine peerpost_of_evpost (replicaStep_spec cfg s f h hst') hst' rfl rfl rfl id (plain_refl s) rfl (hnb hst') ?_
+      · exact peerpost_same h hb hs hu (Or.inr (Or.inr (Or.inl rfl))) rfl (Or.inl rfl) (Or.inl rfl) rfl rfl (plain_refl s)
+      · refine peerpost_of_evpost (replicaStep_spec cfg s f h hst') hst' rfl rfl rfl id (plain_refl s) rfl (hnb hst') ?_ rfl
         intro x y; subst y; simp [Ev.putFault] at x
   | frestart w =>
     simp only [peerEv]
     refine peerpost_same (invA_mk (invc_stream (st' := brokenStream s.stream) (dz' := s.dz) h ?_) rfl rfl rfl rfl rfl rfl rfl rfl) ?_ hs hu
-      (Or.inl rfl) rfl (Or.inl rfl) rfl rfl rfl plain_rfl
+      (Or.inl rfl) rfl (Or.inl rfl) (Or.inl rfl) rfl rfl plain_rfl
     · intro hr _ hnb
       have := hb hr
       cases hst : s.stream <;> simp_all [brokenStream]
@@ -193,16 +208,20 @@ theorem peerEv_spec (cfg : Cfg) (s : St) (e : Ev) (h : InvA s) (hb : s.chan = .r
   | flose w =>
     simp only [peerEv]
     refine peerpost_same (invA_mk (invc_flose (st' := brokenStream s.stream) h ?_) rfl rfl rfl rfl rfl rfl rfl rfl) ?_ hs hu
-      (Or.inl rfl) rfl (Or.inr rfl) rfl rfl rfl plain_rfl
+      (Or.inl rfl) rfl (Or.inr rfl) (Or.inl rfl) rfl rfl plain_rfl
     · intro hr
       have := hb hr
       cases hst : s.stream <;> simp_all [brokenStream]
     · intro hr
       have := hb hr
       cases hst : s.stream <;> simp_all [brokenStream]
+  | fclose w =>
+    simp only [peerEv]
+    exact peerpost_same (invA_mk (invc_fclose h) rfl rfl rfl rfl rfl rfl rfl rfl) hb hs hu
+      (Or.inl rfl) rfl (Or.inr rfl) (Or.inr rfl) rfl rfl plain_rfl (Or.inr rfl)
   | offline w =>
     simp only [peerEv]
-    exact peerpost_same (invA_mk h rfl rfl rfl rfl rfl rfl rfl rfl) hb hs hu (Or.inl rfl) rfl (Or.inl rfl) rfl rfl rfl plain_rfl
+    exact peerpost_same (invA_mk h rfl rfl rfl rfl rfl rfl rfl rfl) hb hs hu (Or.inl rfl) rfl (Or.inl rfl) (Or.inl rfl) rfl rfl plain_rfl
   | online w f =>
     simp only [peerEv]
     exact honl f (by intro x y; subst y; simp [Ev.putFault] at x)
@@ -216,19 +235,19 @@ theorem peerEv_spec (cfg : Cfg) (s : St) (e : Ev) (h : InvA s) (hb : s.chan = .r
       cases hwk : cfg.wake with
       | true =>
         simp only [if_true]
-        refine peerpost_of_evpost (replicaStep_spec cfg _ f hi0 hst') hst' rfl rfl rfl id plain_rfl rfl (hnb hst') ?_
+        refine peerpost_of_evpost (replicaStep_spec cfg _ f hi0 hst') hst' rfl rfl rfl id plain_rfl rfl (hnb hst') ?_ rfl
         intro x y; subst y; simp [Ev.putFault] at x
       | false =>
         simp only [Bool.false_eq_true, if_false]
         exact peerpost_same (invA_mk (invc_notready (ch' := .failure) (st' := s.stream) (dz' := s.dz) h (fun x => by cases x)) rfl rfl rfl rfl rfl rfl rfl rfl)
           (fun x => by cases x) (fun x => by rw [hst'] at x; cases x) hu
-          (Or.inr (Or.inr (Or.inr (Or.inr rfl)))) rfl (Or.inl rfl) rfl rfl rfl plain_rfl
+          (Or.inr (Or.inr (Or.inr (Or.inr rfl)))) rfl (Or.inl rfl) (Or.inl rfl) rfl rfl plain_rfl
     · exact honl f (by intro x y; subst y; simp [Ev.putFault] at x)
   | join w =>
     simp only [peerEv]
     have hl := h.lint
     split
-    · exact peerpost_same h hb hs hu (Or.inl rfl) rfl (Or.inl rfl) rfl rfl rfl (plain_refl s)
+    · exact peerpost_same h hb hs hu (Or.inl rfl) rfl (Or.inl rfl) (Or.inl rfl) rfl rfl (plain_refl s)
     · rename_i hst
       have hst' : s.stopped = true := by simpa using hst
       split
@@ -237,7 +256,7 @@ theorem peerEv_spec (cfg : Cfg) (s : St) (e : Ev) (h : InvA s) (hb : s.chan = .r
         refine ⟨invA_mk (invc_restart (st' := .none) (dz' := false) h) rfl rfl rfl rfl rfl rfl rfl rfl, (fun x => by cases x),
           (fun x => by cases x), (fun x => by simp_all), ⟨by simp, by simp⟩, (fun x => by rw [hst'] at x; cases x),
           (fun _ => ?_), hq.2.2.1, Or.inl rfl, (fun x => by rw [hst'] at x; cases x),
-          (fun n => nlc_lift n hl.ack_app hl.gack_cons), Or.inl plain_rfl, (fun _ _ => rfl)⟩
+          (fun n => nlc_lift n hl.ack_app hl.gack_cons), Or.inl plain_rfl, (fun _ _ _ => rfl), (fun c _ => c)⟩
         show liftAck s.gack s.L.ack = s.gack ∨ liftAck s.gack s.L.ack ≤ s.L.ack
         unfold liftAck
         split
@@ -250,16 +269,16 @@ theorem peerEv_spec (cfg : Cfg) (s : St) (e : Ev) (h : InvA s) (hb : s.chan = .r
         refine ⟨invA_mk (invc_join_new h) rfl rfl rfl rfl rfl rfl rfl rfl, (fun x => by cases x),
           (fun x => by cases x), (fun x => by cases x), ⟨by simp, by simp⟩, (fun x => by rw [hst'] at x; cases x),
           (fun _ => Or.inr (Int.le_refl _)), (by rw [hu'.2.2]; exact hl.ack_ge), Or.inl rfl,
-          (fun x => by rw [hst'] at x; cases x), (fun n => ?_), Or.inl plain_rfl, (fun _ _ => rfl)⟩
+          (fun x => by rw [hst'] at x; cases x), (fun n => ?_), Or.inl plain_rfl, (fun _ _ _ => rfl), (fun c _ => c)⟩
         have := n.f_ack
         rw [hu'.2.2] at this
         exact ⟨hl.ack_app, n.f_app, by have := hl.ack_ge; show s.F.ack ≤ s.L.ack; omega, n.g⟩
-  | append m => simp only [peerEv]; exact peerpost_same h hb hs hu (Or.inl rfl) rfl (Or.inl rfl) rfl rfl rfl (plain_refl s)
-  | lsnap => simp only [peerEv]; exact peerpost_same h hb hs hu (Or.inl rfl) rfl (Or.inl rfl) rfl rfl rfl (plain_refl s)
-  | lrestore k => simp only [peerEv]; exact peerpost_same h hb hs hu (Or.inl rfl) rfl (Or.inl rfl) rfl rfl rfl (plain_refl s)
-  | lrestart => simp only [peerEv]; exact peerpost_same h hb hs hu (Or.inl rfl) rfl (Or.inl rfl) rfl rfl rfl (plain_refl s)
-  | gc => simp only [peerEv]; exact peerpost_same h hb hs hu (Or.inl rfl) rfl (Or.inl rfl) rfl rfl rfl (plain_refl s)
-  | expire => simp only [peerEv]; exact peerpost_same h hb hs hu (Or.inl rfl) rfl (Or.inl rfl) rfl rfl rfl (plain_refl s)
+  | append m => simp only [peerEv]; exact peerpost_same h hb hs hu (Or.inl rfl) rfl (Or.inl rfl) (Or.inl rfl) rfl rfl (plain_refl s)
+  | lsnap => simp only [peerEv]; exact peerpost_same h hb hs hu (Or.inl rfl) rfl (Or.inl rfl) (Or.inl rfl) rfl rfl (plain_refl s)
+  | lrestore k => simp only [peerEv]; exact peerpost_same h hb hs hu (Or.inl rfl) rfl (Or.inl rfl) (Or.inl rfl) rfl rfl (plain_refl s)
+  | lrestart => simp only [peerEv]; exact peerpost_same h hb hs hu (Or.inl rfl) rfl (Or.inl rfl) (Or.inl rfl) rfl rfl (plain_refl s)
+  | gc => simp only [peerEv]; exact peerpost_same h hb hs hu (Or.inl rfl) rfl (Or.inl rfl) (Or.inl rfl) rfl rfl (plain_refl s)
+  | expire => simp only [peerEv]; exact peerpost_same h hb hs hu (Or.inl rfl) rfl (Or.inl rfl) (Or.inl rfl) rfl rfl (plain_refl s)
 
 /-- a peer event keeps the whole-state invariant -/
 theorem peerEv_full (cfg : Cfg) (s : St) (e : Ev) (h : Full s) : Full (peerEv cfg s e).1 := by
@@ -288,7 +307,7 @@ theorem peerEv_dzf (cfg : Cfg) (s : St) (e : Ev) (h : Full s) (n : NLF s) (d : D
     DZF (peerEv cfg s e).1 := by
   have hp := peerEv_spec cfg s e h.a h.bndA h.stA h.ubA
   have hpl := frame_plain_of_nl hp.frame n.a
-  exact ⟨hp.dzkeep d.dza hpf, by rw [hpl.2.2.2.2]; exact d.dzb⟩
+  exact ⟨hp.dzkeep d.dza d.cla hpf, by rw [hpl.2.2.2.2]; exact d.dzb, hp.clkeep d.cla hpf, by rw [(frameSame hp.frame).closed2]; exact d.clb⟩
 
 /-! ### leader-wide events -/
 
@@ -462,6 +481,32 @@ theorem expire_spec (s : St) (h : Full s) : ExpPost s (expire s).1 (expire s).2 
       rw [← hq.app, ← hq.gack2]
       exact Classical.byContradiction (fun x => hd (Or.inr ⟨b, x⟩))
 
+theorem syncGC_closed (s : St) : (syncGC s).closed = s.closed ∧ (syncGC s).closed2 = s.closed2 := by
+  have key : ∀ a : Int, (if 0 ≤ a then { s with L := s.L.setAck a } else s).closed = s.closed ∧
+      (if 0 ≤ a then { s with L := s.L.setAck a } else s).closed2 = s.closed2 := by
+    intro a; split <;> exact ⟨rfl, rfl⟩
+  unfold syncGC
+  split
+  · exact ⟨rfl, rfl⟩
+  · exact key _
+
+theorem expire_closed (s : St) : (expire s).1.closed = s.closed ∧ (expire s).1.closed2 = s.closed2 := by
+  have hg := syncGC_closed s
+  unfold expire
+  generalize syncGC s = t at hg
+  dsimp only
+  have h1 : ∀ (c : Prop) [Decidable c] (u : St), (if c then stopA u else u).closed = u.closed ∧ (if c then stopA u else u).closed2 = u.closed2 := by
+    intro c _ u; split <;> exact ⟨rfl, rfl⟩
+  have h2 : ∀ (c : Prop) [Decidable c] (u : St), (if c then stopB u else u).closed = u.closed ∧ (if c then stopB u else u).closed2 = u.closed2 := by
+    intro c _ u; split <;> exact ⟨rfl, rfl⟩
+  have a1 := h1 (t.stopped = false ∧ t.L.app ≤ t.gack) t
+  generalize (if t.stopped = false ∧ t.L.app ≤ t.gack then stopA t else t) = u at a1
+  have a2 := h2 (t.stopped2 = false ∧ t.L.app ≤ t.gack2) u
+  generalize (if t.stopped2 = false ∧ t.L.app ≤ t.gack2 then stopB u else u) = v at a2
+  split
+  · exact ⟨a2.1.trans (a1.1.trans hg.1), a2.2.trans (a1.2.trans hg.2)⟩
+  · exact ⟨a2.1.trans (a1.1.trans hg.1), a2.2.trans (a1.2.trans hg.2)⟩
+
 /-! ### every event -/
 
 structure NextPost (s s' : St) (o : Out) (e : Ev) : Prop where
@@ -629,6 +674,9 @@ theorem next_spec (cfg : Cfg) (s : St) (e : Ev) (h : Full s) :
     | join w => cases w <;> simp only [Ev.who]
                 · exact next_peer_a cfg s _ h hg' rfl
                 · exact next_peer_b cfg s _ h hg' rfl
+    | fclose w => cases w <;> simp only [Ev.who]
+                  · exact next_peer_a cfg s _ h hg' rfl
+                  · exact next_peer_b cfg s _ h hg' rfl
     | steponl w f => cases w <;> simp only [Ev.who]
                      · exact next_peer_a cfg s _ h hg' rfl
                      · exact next_peer_b cfg s _ h hg' rfl
@@ -641,11 +689,11 @@ theorem next_spec (cfg : Cfg) (s : St) (e : Ev) (h : Full s) :
       · split
         · exact n
         · exact ⟨nlc_append n.a, nlc_append n.b⟩
-      · split <;> exact ⟨d.dza, d.dzb⟩
+      · split <;> exact ⟨d.dza, d.dzb, d.cla, d.clb⟩
       · split <;> exact ⟨rfl, rfl, rfl, rfl⟩
     | lsnap =>
       simp only [Ev.who]
-      exact ⟨full_snap h, fun _ n => ⟨n.a, n.b⟩, fun _ _ _ d => ⟨d.dza, d.dzb⟩, by simp, (fun x => by cases x), (fun x => by cases x),
+      exact ⟨full_snap h, fun _ n => ⟨n.a, n.b⟩, fun _ _ _ d => ⟨d.dza, d.dzb, d.cla, d.clb⟩, by simp, (fun x => by cases x), (fun x => by cases x),
         fun _ _ => ⟨rfl, rfl, rfl, rfl⟩, (fun x => by cases x), hgk _ _⟩
     | lrestore k =>
       simp only [Ev.who]
@@ -660,18 +708,20 @@ theorem next_spec (cfg : Cfg) (s : St) (e : Ev) (h : Full s) :
           (fun _ x => by simp [Ev.isRestart] at x), (fun x => by cases x), hgk _ _⟩
     | lrestart =>
       simp only [Ev.who]
-      exact ⟨full_restart h, fun _ n => nlf_restart h n, fun _ _ _ _ => ⟨rfl, rfl⟩, by simp, (fun x => by cases x), (fun x => by cases x),
+      exact ⟨full_restart h, fun _ n => nlf_restart h n, fun _ _ _ d => ⟨rfl, rfl, d.cla, d.clb⟩, by simp, (fun x => by cases x), (fun x => by cases x),
         (fun _ x => by simp [Ev.isRestart] at x), (fun x => by cases x), hgk _ _⟩
     | gc =>
       simp only [Ev.who]
       have hs := syncGC_spec s h
-      exact ⟨hs.1, fun _ n => hs.2.1 n, fun _ _ _ d => ⟨by rw [hs.2.2.dz]; exact d.dza, by rw [hs.2.2.dz2]; exact d.dzb⟩, by simp,
+      exact ⟨hs.1, fun _ n => hs.2.1 n, fun _ _ _ d => ⟨by rw [hs.2.2.dz]; exact d.dza, by rw [hs.2.2.dz2]; exact d.dzb,
+          by rw [(syncGC_closed s).1]; exact d.cla, by rw [(syncGC_closed s).2]; exact d.clb⟩, by simp,
         (fun x => by cases x), (fun x => by cases x),
         fun _ _ => ⟨hs.2.2.gack, hs.2.2.gack2, hs.2.2.f, hs.2.2.f2⟩, (fun x => by cases x), hgk _ _⟩
     | expire =>
       simp only [Ev.who]
       have hs := expire_spec s h
-      refine ⟨hs.full, fun _ n => hs.nl n, fun _ _ _ d => ⟨by rw [hs.dz.1]; exact d.dza, by rw [hs.dz.2]; exact d.dzb⟩, ?_,
+      refine ⟨hs.full, fun _ n => hs.nl n, fun _ _ _ d => ⟨by rw [hs.dz.1]; exact d.dza, by rw [hs.dz.2]; exact d.dzb,
+          by rw [(expire_closed s).1]; exact d.cla, by rw [(expire_closed s).2]; exact d.clb⟩, ?_,
         (fun x => by cases x), (fun x => by cases x),
         fun _ _ => ⟨hs.gack, hs.gack2, hs.f, hs.f2⟩, fun _ _ => hs, fun x => absurd x hg⟩
       rcases hs.lbl with x | x <;> rw [x] <;> simp
@@ -693,7 +743,7 @@ theorem nlf_init : NLF St.init := by
     ⟨by simp [Log.empty], by simp [Log.empty], by simp [Log.empty], g_follower_holds_nothing log_empty_get⟩
   exact ⟨hn, hn⟩
 
-theorem dzf_init : DZF St.init := ⟨rfl, rfl⟩
+theorem dzf_init : DZF St.init := ⟨rfl, rfl, rfl, rfl⟩
 
 theorem full_foldl (cfg : Cfg) (evs : List Ev) : ∀ s, Full s →
     Full (evs.foldl (fun s e => (next cfg s e).1) s) := by
